@@ -451,7 +451,10 @@ class Interp:
                     '_process_state', '_calculate_update'):
             b = {}
             for p, a in binding.items():
-                if isinstance(a, ast.Name) and a.id not in st.env:
+                if isinstance(a, ast.Name) and not isinstance(
+                        st.env.get(a.id), (Lin, MinSet)):
+                    # a container (or unknown) handed on under another
+                    # name: loops over the parameter are loops over it
                     b[p] = Tag('listvar', a.id)
                 else:
                     alts = self.eval(st, a)
@@ -556,6 +559,9 @@ class SchedulerAnalysis:
 
     def _init_state(self):
         st = State()
+        # whatever the local that holds the end of the interval is called,
+        # it is the symbol end_time of the analysis
+        st.env[self.rf.end_name] = Lin.sym('end_time')
         st.facts.append(le(Lin.sym('gt'), Lin.sym('end_time')))
         return st
 
